@@ -16,6 +16,7 @@ Record c05_case := {
                                           estimated from what it stores *)
   k_alone : bool;                      (* a is a stand-alone fiber tree (no tensor): every fiber carries
                                           its own rank attributes (shape, format) *)
+  k_zU    : list bool;                 (* z's ranks declared uncompressed (no effect on populate) *)
   k_body  : list (list Z * act)        (* what the body does with the reference offered at a path;
                                           paths not listed: left alone *)
 }.
@@ -82,11 +83,20 @@ Fixpoint no_consec (l : list bool) : bool :=
                end
   end.
 
+(* the attributes of z's ranks, top to bottom: [rank id (as its index); shape; default (a leaf
+   default, or [] for "a fiber"); format (1 = "U")].  Populate does not touch them. *)
+Definition V_zattrs (c : c05_case) : V :=
+  VL (map (fun k => VL [Vn k; VZ (nth k (k_shape c) 0 + 2);
+                        (if Nat.eqb (S k) (k_n c) then VZ (k_dz c) else VL []);
+                        Vb (nth k (k_zU c) false)])
+          (seq 0 (k_n c))).
+
 Definition c05_model (c : c05_case) : V :=
   let sa := init (k_n c) (k_da c) (k_a c) in
   let sz := init (k_n c) (k_dz c) (k_z c) in
   let '(sz', evs) := populate (k_sp c) (bd_of (k_body c)) (k_a c) sz in
-  VL [V_src c; V_state sz; VL (map (V_ev (k_sp c) sz) evs); V_state sz'; V_src c].
+  VL [V_src c; V_state sz; VL (map (V_ev (k_sp c) sz) evs); V_state sz'; V_src c;
+      V_zattrs c; V_zattrs c].
 
 (* ---------- decoding ---------- *)
 Record oev := { oe_path : list Z; oe_a : tree; oe_z : tree; oe_st : ostate; oe_act : Z * Z }.
@@ -103,15 +113,16 @@ Definition V_to_ev (v : V) : option oev :=
   end.
 
 Record oobs := { oo_a0 : ostate; oo_z0 : ostate; oo_evs : list oev; oo_z1 : ostate; oo_a1 : ostate;
-                 oo_a_same : bool   (* a's observed state after = before, rank lists included *) }.
+                 oo_a_same : bool;  (* a's observed state after = before, rank lists included *)
+                 oo_za0 : V; oo_za1 : V   (* attributes of z's ranks before / after *) }.
 
 Definition V_to_obs (v : V) : option oobs :=
   match v with
-  | VL [a0; z0; VL evs; z1; a1] =>
+  | VL [a0; z0; VL evs; z1; a1; za0; za1] =>
     match V_to_state a0, V_to_state z0, all_some (map V_to_ev evs), V_to_state z1, V_to_state a1 with
     | Some a0', Some z0', Some evs', Some z1', Some a1' =>
       Some {| oo_a0 := a0'; oo_z0 := z0'; oo_evs := evs'; oo_z1 := z1'; oo_a1 := a1';
-              oo_a_same := V_eqb a0 a1 |}
+              oo_a_same := V_eqb a0 a1; oo_za0 := za0; oo_za1 := za1 |}
     | _, _, _, _, _ => None
     end
   | _ => None
@@ -330,8 +341,13 @@ Definition c05_member_ok (c : c05_case) (o : oobs) : bool :=
 Definition c05_core_ok (c : c05_case) (o : oobs) : bool :=
   c05_source_ok c o && c05_offers_ok c o && c05_result_ok c o && c05_raw_ok c o.
 
+(* z's rank attributes (id, shape, default, format) are what was declared, before and after *)
+Definition c05_attrs_ok (c : c05_case) (o : oobs) : bool :=
+  V_eqb (oo_za0 o) (V_zattrs c) && V_eqb (oo_za1 o) (V_zattrs c).
+
 Definition c05_holds_obs (c : c05_case) (o : oobs) : bool :=
-  c05_core_ok c o && c05_ref_ok c o && c05_wf_ok c o && c05_member_ok c o && c05_active_ok c o.
+  c05_core_ok c o && c05_ref_ok c o && c05_wf_ok c o && c05_member_ok c o && c05_active_ok c o
+  && c05_attrs_ok c o.
 
 Definition c05_holds (c : c05_case) (v : V) : bool :=
   c05_wf c &&
